@@ -33,6 +33,7 @@ pub const F_UNSTASH: u8 = 6; // release one program-held pointer (finalizers tha
 pub const F_UPGRADE_STASH: u8 = 7; // upgrade the weak slot into a program-held place (weak-ptrs)
 pub const F_UPGRADE_SLOT1: u8 = 8; // upgrade the weak slot into the object's own traced slot 1 (weak-ptrs)
 pub const F_PROBE: u8 = 9; // try_unwrap / finalize_again on a unique program-held Cc from inside the finalizer (C12)
+pub const F_UNSTASH_ALLOC: u8 = 10; // release a program-held pointer (it gets buffered), then allocate (C12/C15)
 pub const F_NBEHAV: u8 = 7;
 pub const F_NBEHAV_WEAK: u8 = 9;
 
@@ -42,6 +43,7 @@ pub const D_TEMP: u8 = 1; // create and release a temporary Cc inside the destru
 pub const D_COLLECT: u8 = 2; // request a collection from inside the destructor
 pub const D_UPGRADE: u8 = 3; // upgrade the weak slot inside the destructor and keep the result (weak-ptrs)
 pub const D_PROBE: u8 = 4; // try_unwrap / finalize_again on a unique program-held Cc from inside the destructor (C12)
+pub const D_ALLOC_NODE: u8 = 5; // create an object with a real finalizer inside the destructor and keep it (C04/C05)
 pub const D_NBEHAV: u8 = 3;
 pub const D_NBEHAV_WEAK: u8 = 4;
 
@@ -94,6 +96,9 @@ pub struct World {
     pub born_in_fin: [bool; MAXN],
     /// a nested collect_cycles() from a callback of a running collection changed executions_count()
     pub nested_collect: u32,
+    /// collect_cycles() called outside any collection (from a callback of a plain drop) did not start a collection
+    pub collect_missing: u32,
+    pub bad_ptr_eq: u32,
     pub in_callback: u32,
     /// set by the harness around top-level collect_cycles() calls
     pub in_collect: bool,
@@ -161,6 +166,8 @@ pub static mut W: World = World {
     rearm: [0; MAXN],
     born_in_fin: [false; MAXN],
     nested_collect: 0,
+    collect_missing: 0,
+    bad_ptr_eq: 0,
     in_callback: 0,
     in_collect: false,
     fault_kind: 0,
@@ -242,6 +249,12 @@ unsafe impl Trace for Node {
             w.bad_phase += 1;
         }
         maybe_fault(K_TRACE);
+        // comparing pointers (not dereferencing them) is allowed while tracing
+        if let Some(x) = &self.slots()[0] {
+            if !Cc::ptr_eq(x, x) {
+                w.bad_ptr_eq += 1;
+            }
+        }
         self.slots().trace(ctx);
         // `untraced` is deliberately not traced; weak pointers trace nothing
         #[cfg(feature = "weak-ptrs")]
@@ -318,12 +331,24 @@ impl Finalize for Node {
                 }
             }
             F_COLLECT => {
-                let before = state::executions_count().unwrap_or(0);
-                let collecting = w.in_collect;
-                collect_cycles();
-                if collecting && state::executions_count().unwrap_or(0) != before {
-                    w.nested_collect += 1;
+                nested_collect_request();
+            }
+            F_UNSTASH_ALLOC => {
+                for i in 0..MAXN {
+                    if w.stash[i].is_some() {
+                        let c = w.stash[i].take();
+                        note_unreachable();
+                        drop(c);
+                        break;
+                    }
                 }
+                let e0 = state::executions_count().unwrap_or(0);
+                let expect = expected_trigger();
+                let c = Cc::new(11u16);
+                if state::executions_count().unwrap_or(0) - e0 != expect as usize {
+                    w.bad_trigger += 1;
+                }
+                drop(c);
             }
             F_PROBE => {
                 crate::h_api::nested_probe();
@@ -426,11 +451,24 @@ impl Drop for Node {
                 crate::h_api::nested_probe();
             }
             D_COLLECT => {
-                let before = state::executions_count().unwrap_or(0);
-                let collecting = w.in_collect;
-                collect_cycles();
-                if collecting && state::executions_count().unwrap_or(0) != before {
-                    w.nested_collect += 1;
+                nested_collect_request();
+            }
+            D_ALLOC_NODE => {
+                let j = w.n;
+                if j < MAXN {
+                    // born finalized exactly when some finalizer is on the stack (this destructor may be nested in one)
+                    let (_, in_finalizer, _) = rust_cc::verif::phase_flags();
+                    new_node(j);
+                    if let Some(c) = w.h[j].take() {
+                        if cfg!(feature = "finalization") && c.already_finalized_compat() != in_finalizer {
+                            w.drop_unfinalized += 1;
+                        }
+                        if in_finalizer {
+                            w.born_in_fin[j] = true;
+                            w.armed[j] = false;
+                        }
+                        stash_put(j, c);
+                    }
                 }
             }
             #[cfg(feature = "weak-ptrs")]
@@ -502,6 +540,22 @@ pub fn predict_collected_end() {
     if w.predict && cfg!(feature = "finalization") {
         // with finalization the collection repeats until the buffer is empty
         w.buffered = [false; MAXN];
+    }
+}
+
+/// collect_cycles() requested from inside a callback: a no-op inside a running collection, a real collection otherwise.
+pub fn nested_collect_request() {
+    let w = w();
+    let before = state::executions_count().unwrap_or(0);
+    let (collecting, _, _) = rust_cc::verif::phase_flags();
+    collect_cycles();
+    let after = state::executions_count().unwrap_or(0);
+    if collecting {
+        if after != before {
+            w.nested_collect += 1; // C12: collections never nest
+        }
+    } else if after != before + 1 {
+        w.collect_missing += 1; // C02/C11: outside a collection the call starts exactly one
     }
 }
 
@@ -926,6 +980,8 @@ pub fn oracle_safety(base: u32) {
     check(w.nested_collect == 0, base + 12); // C12: collections never nest
     check(w.bad_upgrade == 0, base + 16); // C08: upgrades inside callbacks agree with the model
     check(w.bad_trigger == 0, base + 17); // C15/C12: allocation-triggered collections follow the policy, never nest
+    check(w.collect_missing == 0, base + 18); // C02: collect_cycles() outside a collection always collects
+    check(w.bad_ptr_eq == 0, base + 19); // C20
     for i in 0..w.n {
         if !w.created[i] {
             continue;
